@@ -5,9 +5,8 @@ import AlgoVerif.Common
 The abstract state is a `Bag` = `List (K × V)` read up to permutation.  Because *any* extremal entry is an
 acceptable answer of `Peek`/`Delete`, the Spec is a relation "`out` is an admitted outcome of `op` in
 bag `b`, leaving bag `b'`" rather than a function.  For mergeable heaps a history runs over a family
-of heaps (registers `0, 1, 2, …`, all empty at first): `merge d s` merges heap `s` into heap `d` and
-replaces `s` by a fresh empty heap (the Go `Merge` leaves its operand sharing nodes with the receiver,
-so the operand must not be used again).
+of heaps (registers `0, 1, 2, …`, all empty at first): `merge d s` moves everything heap `s` holds into
+heap `d` and leaves `s` empty; both heaps stay in use.  Merging a heap into itself changes nothing.
 -/
 namespace AlgoVerif.C04
 variable {K V : Type}
@@ -38,7 +37,7 @@ inductive Op (K V : Type) where
 /-- operations on a family of mergeable heaps -/
 inductive MOp (K V : Type) where
   | on (r : Nat) (op : Op K V)
-  /-- `heap[dst].Merge(heap[src]); heap[src] = New()` -/
+  /-- `heap[dst].Merge(heap[src])` -/
   | merge (dst src : Nat)
   deriving Repr
 
@@ -80,9 +79,10 @@ def Admitted1 (cmp : K → K → Int) (eqV : V → V → Bool) : Bag K V → Lis
 /-- one step on a family of heaps -/
 def MStep (cmp : K → K → Int) (eqV : V → V → Bool) (bags : Nat → Bag K V) : MOp K V → Out K V → (Nat → Bag K V) → Prop
   | .on r op, out, bags' => Step cmp eqV (bags r) op out (bags' r) ∧ ∀ r', r' ≠ r → bags' r' = bags r'
-  -- Merge makes the receiver hold the multiset union of both heaps
+  -- Merge makes the receiver hold the multiset union of both heaps; the operand is left empty
   | .merge d s, .unit, bags' =>
-      (bags' d).Perm (bags d ++ bags s) ∧ bags' s = [] ∧ ∀ r', r' ≠ d → r' ≠ s → bags' r' = bags r'
+      (d = s → bags' = bags) ∧
+      (d ≠ s → (bags' d).Perm (bags d ++ bags s) ∧ bags' s = [] ∧ ∀ r', r' ≠ d → r' ≠ s → bags' r' = bags r')
   | .merge _ _, _, _ => False
 
 /-- a history on a family of heaps is admitted (no operation panics or diverges) -/
@@ -92,14 +92,23 @@ def Admitted (cmp : K → K → Int) (eqV : V → V → Bool) :
   | bags, op :: ops, .ok out :: tr => ∃ bags', MStep cmp eqV bags op out bags' ∧ Admitted cmp eqV bags' ops tr
   | _, _, _ => False
 
-/-- `Merge`'s operand is a different heap. -/
-def WellFormed (ops : List (MOp K V)) : Prop := ∀ d s, MOp.merge d s ∈ ops → d ≠ s
-
 /-! comparators used by the harness and by the non-vacuity examples -/
 def cmpAsc (a b : Int) : Int := if a < b then -1 else if a > b then 1 else 0
 def cmpDesc (a b : Int) : Int := if a < b then 1 else if a > b then -1 else 0
 /-- a total preorder that is not antisymmetric: keys `2i` and `2i+1` compare equal -/
 def cmpHalf (a b : Int) : Int := cmpAsc (a / 2) (b / 2)
+
+/-- comparators that return arbitrary magnitudes (only the sign may be used by the heaps) -/
+def cmpSub (a b : Int) : Int := a - b
+def cmpSub7 (a b : Int) : Int := 7 * (a - b)
+def cmpRevSub (a b : Int) : Int := b - a
+
+theorem lawful_cmpSub : LawfulCmp cmpSub :=
+  ⟨by intro a b; unfold cmpSub; omega, by intro a b c; unfold cmpSub; omega⟩
+theorem lawful_cmpSub7 : LawfulCmp cmpSub7 :=
+  ⟨by intro a b; unfold cmpSub7; omega, by intro a b c; unfold cmpSub7; omega⟩
+theorem lawful_cmpRevSub : LawfulCmp cmpRevSub :=
+  ⟨by intro a b; unfold cmpRevSub; omega, by intro a b c; unfold cmpRevSub; omega⟩
 
 theorem lawful_cmpAsc : LawfulCmp cmpAsc :=
   ⟨by intro a b; unfold cmpAsc; split <;> split <;> omega,
